@@ -26,6 +26,117 @@
 #include "gen_layout.h"
 #include "gen_reset.h"
 
+
+/* ------------------------------------------------------------------------- */
+/* arenas: with -Wl,--wrap=malloc,--wrap=calloc,--wrap=realloc,--wrap=free,--wrap=posix_memalign every
+ * allocation made by the harness objects (imbh.c included) while an arena is current comes from
+ * that arena (bump allocation, never reused).  k15: twin managers get their job buffers at equal
+ * offsets of two arenas, so pointers can be normalised; k16: manager, job buffers, key material and
+ * bookkeeping all live in one MAP_SHARED|MAP_FIXED region. */
+
+typedef struct {
+        uint8_t *base;
+        size_t size;
+        size_t *used; /* lives inside the arena (first word) so that it survives exec */
+} karena;
+
+#define K_MAX_ARENAS 8
+static karena k_arenas[K_MAX_ARENAS];
+static int k_narenas;
+static karena *k_cur_arena;
+
+void *__real_malloc(size_t);
+void *__real_calloc(size_t, size_t);
+void *__real_realloc(void *, size_t);
+void __real_free(void *);
+int __real_posix_memalign(void **, size_t, size_t);
+
+static karena *
+karena_register(void *base, size_t size, int fresh)
+{
+        karena *a = &k_arenas[k_narenas++];
+
+        a->base = base;
+        a->size = size;
+        a->used = (size_t *) base;
+        if (fresh)
+                *a->used = 64;
+        return a;
+}
+
+static karena *
+karena_of(const void *p)
+{
+        for (int i = 0; i < k_narenas; i++)
+                if ((const uint8_t *) p >= k_arenas[i].base &&
+                    (const uint8_t *) p < k_arenas[i].base + k_arenas[i].size)
+                        return &k_arenas[i];
+        return NULL;
+}
+
+static void *
+karena_alloc(karena *a, size_t n, size_t align)
+{
+        if (align < 16)
+                align = 16;
+        size_t off = (*a->used + 16 + align - 1) & ~(align - 1); /* 16-byte header holds the size */
+
+        if (off + n > a->size) {
+                fprintf(stderr, "arena exhausted\n");
+                abort();
+        }
+        *(size_t *) (a->base + off - 16) = n;
+        *a->used = off + n;
+        return a->base + off;
+}
+
+void *
+__wrap_malloc(size_t n)
+{
+        return k_cur_arena ? karena_alloc(k_cur_arena, n, 16) : __real_malloc(n);
+}
+void *
+__wrap_calloc(size_t a, size_t b)
+{
+        if (!k_cur_arena)
+                return __real_calloc(a, b);
+        void *p = karena_alloc(k_cur_arena, a * b, 16);
+        memset(p, 0, a * b);
+        return p;
+}
+void *
+__wrap_realloc(void *p, size_t n)
+{
+        karena *a = p ? karena_of(p) : NULL;
+
+        if (a == NULL && !k_cur_arena)
+                return __real_realloc(p, n);
+        if (a == NULL && p != NULL) { /* heap block grown while an arena is current */
+                return __real_realloc(p, n);
+        }
+        void *q = karena_alloc(a ? a : k_cur_arena, n, 16);
+
+        if (p != NULL) {
+                const size_t old = *(size_t *) ((uint8_t *) p - 16);
+                memcpy(q, p, old < n ? old : n);
+        }
+        return q;
+}
+void
+__wrap_free(void *p)
+{
+        if (p != NULL && karena_of(p) == NULL)
+                __real_free(p);
+}
+int
+__wrap_posix_memalign(void **out, size_t al, size_t n)
+{
+        if (!k_cur_arena)
+                return __real_posix_memalign(out, al, n);
+        *out = karena_alloc(k_cur_arena, n, al);
+        return 0;
+}
+
 /* ------------------------------------------------------------------------- */
 /* scripts */
 
@@ -143,6 +254,7 @@ typedef struct {
         int bad_status;
         const char *tag; /* prefix of trace lines */
         FILE *out;
+        karena *arena; /* job buffers come from here (NULL: heap) */
 } kctx;
 
 static kctx *
@@ -210,7 +322,12 @@ k_prepare(kctx *c, int idx)
                 fprintf(stderr, "item %d submitted twice\n", idx);
                 exit(2);
         }
+        karena *saved = k_cur_arena;
+
+        if (c->arena)
+                k_cur_arena = c->arena;
         c->runs[idx] = imbh_run_new(c->mgr, &c->s->items[idx]);
+        k_cur_arena = saved;
         if (c->runs[idx]->prep_err) {
                 fprintf(stderr, "item %d cannot be prepared (%d)\n", idx, c->runs[idx]->prep_err);
                 exit(2);
@@ -409,18 +526,6 @@ k_lanes_in_use(IMB_MGR *mgr, const struct gr_ooo *e)
         return c.n;
 }
 
-static void
-k_print_occupancy(IMB_MGR *mgr, const char *tag, FILE *out)
-{
-        fprintf(out, "%s OCC", tag);
-        for (int i = 0; i < GR_NTABLE; i++) {
-                const int n = k_lanes_in_use(mgr, &gr_table[i]);
-                if (n)
-                        fprintf(out, " %s=%d", gr_table[i].field, n);
-        }
-        fprintf(out, "\n");
-}
-
 static const struct gr_variant *
 k_variant_of(const IMB_MGR *mgr)
 {
@@ -437,6 +542,23 @@ k_variant_uses(const struct gr_variant *v, const char *field)
                 if (!strcmp(v->used[i], field))
                         return 1;
         return 0;
+}
+
+/* lanes holding a job, per manager the current variant schedules on */
+static void
+k_print_occupancy(IMB_MGR *mgr, const char *tag, FILE *out)
+{
+        const struct gr_variant *v = k_variant_of(mgr);
+
+        fprintf(out, "%s OCC", tag);
+        for (int i = 0; i < GR_NTABLE; i++) {
+                if (!k_variant_uses(v, gr_table[i].field))
+                        continue;
+                const int n = k_lanes_in_use(mgr, &gr_table[i]);
+                if (n)
+                        fprintf(out, " %s=%d", gr_table[i].field, n);
+        }
+        fprintf(out, "\n");
 }
 
 static IMB_MGR *
